@@ -108,6 +108,9 @@ class Ctx:
                 print(f"  FAILED {o['rule']} [{o['key']}] {o['detail']} @ {o['where']}")
             print(f"VIOLATION property={self.prop} replay={vpath}")
             return 1
+        stale = os.path.join(evdir, f"{self.prop}.violation.json")
+        if os.path.exists(stale):
+            os.remove(stale)
         return 0
 
 
